@@ -49,6 +49,12 @@ struct ProcState {
   std::uintptr_t stack_probe = 0;
   std::uintptr_t dead_hi = 0;  // stack addresses in [stack_probe - kStackBytes, dead_hi) are dead (0 = none)
   int allocs = 0;
+  // spin detection: the process repeated a non-modifying operation that saw the same value and nothing was modified since
+  std::string ro_sig;
+  int ro_count = 0;
+  bool spinning = false;
+  std::uint64_t spin_epoch = 0;
+  bool park_forever = false;
 };
 
 struct Range {
@@ -75,6 +81,7 @@ struct Global {
   std::uint64_t seed = 1;
   long max_execs = 1000000;
   long preempt_bound = -1;
+  std::uint64_t mod_epoch = 0;  // number of modifying operations so far (spin detection)
   int tailsplit = 0;       // per execution: how often a process may be preempted right AFTER a visible operation
   int tail_budget = 0;
   FILE* out = nullptr;
@@ -490,6 +497,10 @@ bool HookInject() {
     st->phase = 1;
     // the slice that led here is over; the next decision is who performs its pending operation
     yaclib::fault::Scheduler::RescheduleCurrent();
+    if (st->park_forever) {
+      // every runnable process spins on a value nobody is going to change: a livelock, reported as a deadlock
+      yaclib::fault::Scheduler::Suspend();
+    }
     // resumed: nobody else runs until the operation has been performed
     {
       HookGuard hg;
@@ -512,6 +523,34 @@ bool HookInject() {
     FlushSlice(st);
   }
   st->slice_op = OpJson(st, st->op, false, after);
+  {
+    // spin detection: a process that repeats a non-modifying operation on the same object with the same outcome is
+    // waiting for somebody else; it is not scheduled again until another process has modified something
+    const bool ro = st->op.peek != nullptr && after == st->before && st->op.kind != Kind::kFence;
+    if (st->op_spur) {
+      // a spuriously failing weak CAS says nothing about waiting
+    } else if (ro) {
+      std::string sig = std::string(KindName(st->op.kind)) + "|" + std::to_string(reinterpret_cast<std::uintptr_t>(st->op.obj)) + "|" +
+                        std::to_string(st->before);
+      if (sig == st->ro_sig) {
+        // two identical reads in a row are common in straight-line code (check, then check again under a different
+        // name); the third one is a loop
+        if (++st->ro_count >= 3) {
+          st->spinning = true;
+          st->spin_epoch = g.mod_epoch;
+        }
+      } else {
+        st->ro_sig = std::move(sig);
+        st->ro_count = 1;
+        st->spinning = false;
+      }
+    } else {
+      ++g.mod_epoch;
+      st->ro_sig.clear();
+      st->ro_count = 0;
+      st->spinning = false;
+    }
+  }
   if (!st->uar.empty()) {
     st->obs.insert(st->obs.begin(), "{\"k\":\"use_after_return\",\"v\":" + JsonStr(st->uar) + "}");
     st->uar.clear();
@@ -579,7 +618,19 @@ int HookPickNext(const std::uint64_t* ids, int n) {
     }
   }
   for (int i = 0; i != n; ++i) {
-    cands.emplace_back(ProcFor(ids[i])->name, i);
+    auto* st = ProcFor(ids[i]);
+    if (st->spinning && st->spin_epoch == g.mod_epoch) {
+      continue;  // spins on something nobody has changed since: not runnable
+    }
+    cands.emplace_back(st->name, i);
+  }
+  if (cands.empty()) {
+    // everybody spins: park them one by one, the run ends as a deadlock
+    auto* st = ProcFor(ids[0]);
+    st->park_forever = true;
+    g.running = st;
+    g.last_chooser = st;
+    return 0;
   }
   std::sort(cands.begin(), cands.end());
   std::vector<std::string> names;
@@ -754,6 +805,7 @@ ExecResult RunExecution(const Scenario& sc, const std::map<std::string, std::str
   g.root = nullptr;
   g.running = nullptr;
   g.last_chooser = nullptr;
+  g.mod_epoch = 0;
   g.auto_names = 0;
   g.choices.clear();
   g.replay_pos = 0;
